@@ -604,7 +604,10 @@ pub fn abstract_plus(first: &Value, second: &Value) -> Value {
 
     match (first_num, second_num) {
         (Some(f), Some(s)) => {
-            return Value::Number(Number::from_f64(f + s).unwrap());
+            // An overflowing sum is Infinity in JS, which JSON spells null.
+            return Number::from_f64(f + s)
+                .map(Value::Number)
+                .unwrap_or(Value::Null);
         }
         _ => {}
     };
